@@ -16,6 +16,7 @@ import (
 	"golang.org/x/crypto/sha3"
 
 	"github.com/oasisprotocol/curve25519-voi/primitives/sr25519"
+	"github.com/oasisprotocol/curve25519-voi/zzverif/entropy"
 	"github.com/oasisprotocol/curve25519-voi/zzverif/mon"
 	"github.com/oasisprotocol/curve25519-voi/zzverif/ref"
 )
@@ -590,7 +591,16 @@ func batch(r *mon.Run, c Case) {
 	round(0, 0) // empty batch: false
 }
 
+// entropyCase: the entropy-consuming APIs of this property behind differently behaving readers (package entropy).
+func entropyCase(r *mon.Run, c Case) {
+	entropy.Check(r, "C12", r.Rng(c.Stream), func(sig, what string) { r.Violate(sig, what, c) })
+}
+
 func runCase(r *mon.Run, c Case) {
+	if c.Kind == "entropy" {
+		entropyCase(r, c)
+		return
+	}
 	switch c.Kind {
 	case "signing":
 		signing(r, c)
@@ -620,5 +630,8 @@ func main() {
 		cases = append(cases, Case{Kind: "batch", Stream: fmt.Sprintf("c12/batch/%d", i), Idx: i})
 	}
 	r.Parallel(len(cases), func(i int) { runCase(r, cases[i]) })
+	for i := 0; i < r.Pick(6, 60); i++ {
+		entropyCase(r, Case{Kind: "entropy", Stream: fmt.Sprintf("c12/entropy/%d", i)})
+	}
 	r.Finish()
 }
